@@ -12,7 +12,7 @@ ID = "C14"
 LEVEL = "exploration"
 RULE = ("ordered 1:1 binding lists (empty prefix, IRIs with and without '/' or '#', non-ASCII, namespaces that are also "
         "statement prefixes, more bindings than table slots) x statement sequences x generic sink and rdflib Graph/Dataset x "
-        "TRIPLES/QUADS/GRAPHS x small tables. Oracle: the Prefix events of parse_jelly_flat (both integrations) == the source "
+        "TRIPLES/QUADS/GRAPHS x small tables; one case in five writes 2-5 sinks with repeating bindings through ONE stream. Oracle: the Prefix events of parse_jelly_flat (both integrations) == the source "
         "bindings (prefix, IRI string) in order; sink.namespaces after sink.parse likewise; re-serializing what was read "
         "reproduces the same declarations; statements with declarations on == statements with declarations off == input; "
         "with the option off the independent decoder sees no namespace row and version 1 (version 2 with it on). rdflib "
@@ -238,11 +238,50 @@ def judge_rdflib(cfg, stmts, ns, mode):
     return None
 
 
+def judge_multi(cfg, groups, nss):
+    """Several sinks with (repeating) bindings through ONE stream: each sink's declarations are delivered again, in order."""
+    on, off = dict(cfg, ns=True), dict(cfg, ns=False)
+    try:
+        d_on = pj.serialize_groups(on, groups, nss)
+        d_off = pj.serialize_groups(off, groups, nss)
+    except Exception as e:  # noqa: BLE001
+        return {"clause": "serializer-raised", "summary": f"{type(e).__name__}: {e}"}
+    want_ns = [(p, i) for n in nss for p, i in n]
+    want_st = [T.norm_stmt(s) for g in groups for s in g]
+    ordered = cfg["integration"] == "generic"
+    for integ in ("generic", "rdflib"):
+        try:
+            ev_on = pj.parse(integ, "flat", d_on)
+            ev_off = pj.parse(integ, "flat", d_off)
+        except Exception as e:  # noqa: BLE001
+            return {"clause": "parser-raised", "summary": f"{integ}: {type(e).__name__}: {e}"}
+        if prefix_events(ev_on) != want_ns:
+            return _ns_diff("prefix-events-differ", f"{integ}:flat (multi-sink stream)", prefix_events(ev_on), want_ns)
+        if prefix_events(ev_off):
+            return {"clause": "declaration-with-option-off", "summary": f"{integ}: Prefix events although the option is off"}
+        a, b = stmts_of(ev_on), stmts_of(ev_off)
+        if (a != want_st or b != want_st) if ordered else (set(a) != set(want_st) or set(b) != set(want_st)):
+            return {"clause": "statements-changed", "summary": f"{integ}: statements of a {len(groups)}-sink stream differ with "
+                                                               f"declarations on/off (on={len(a)}, off={len(b)}, written={len(want_st)})"}
+    return _wire_checks(d_on, d_off, True, bool(want_ns))
+
+
 def run_shard(ctx):
     i = 0
     while not ctx.out_of_time():
         rng = ctx.rng(i)
         i += 1
+        if i % 5 == 0:
+            cfg, groups, nss = workloads.multi_sink_case(rng, with_ns=True)
+            w = judge_multi(cfg, groups, nss)
+            ctx.observe("multi-sink-cases")
+            ctx.observe("prefix-events-compared", sum(len(n) for n in nss) * 2)
+            if w is not None and w["clause"] != "serializer-raised":
+                w.update({"cfg": cfg, "groups": T.to_json(groups), "nss": nss, "mode": "rdf11"})
+                ctx.violation(w)
+            ctx.case(("multi", sorted(cfg.items()), groups, nss), w is None,
+                     sample={"kind": "multi-sink", "cfg": cfg, "bindings_per_sink": [len(n) for n in nss]})
+            continue
         integ = "generic" if rng.random() < .5 else "rdflib"
         cfg, stmts, ns, mode = make_case(rng, integ)
         judge = judge_generic if integ == "generic" else judge_rdflib
@@ -277,6 +316,9 @@ def run_shard(ctx):
 def replay(w: dict):
     cfg = w["cfg"]
     cfg["preset"] = tuple(cfg["preset"])
+    if "groups" in w:
+        r = judge_multi(cfg, [list(g) for g in T.from_json(w["groups"])], [[tuple(b) for b in n] for n in w["nss"]])
+        return r if r and r["clause"] != "serializer-raised" else None
     stmts = list(T.from_json(w["stmts"]))
     ns = [tuple(x) for x in w["ns"]]
     judge = judge_generic if cfg["integration"] == "generic" else judge_rdflib
